@@ -88,6 +88,7 @@ def case(draw):
             "twin": draw(st.integers(0, 3)) == 0,
             # the file is ISO-8859-1, not UTF-8
             "latin1": draw(st.integers(0, 7)) == 0,
+            "far": draw(st.integers(0, 5)) == 0,
             "mirror": draw(st.integers(0, 5)) == 0, "bincontent": draw(st.sampled_from(["nonutf8", "controls"]))}
 
 
@@ -156,6 +157,13 @@ def check(ctx, c, table_walk=False):
                 # two closed ignore blocks in two comments, the second one further down: neither is a header
                 content += "\n" + "\n".join(wrap(["REUSE-IgnoreStart", "Copyright (C) 1998 Ignored Holder", "REUSE-IgnoreEnd"])) + "\nmore_code();\n"
             ctx.label(f"existing:ignore-block-on-top:{('closed', 'stray-end-then-open', 'two-blocks')[variant]}")
+        if (c.get("far") and isinstance(content, str) and not c["binary"] and not to_dotlicense and not existing and not c.get("ignored_top")
+                and used_style and S.has_single(used_style) and not content.startswith(("#!", "<?xml", "# -*-"))):
+            # a long file without header comment that spells the requested notices out, verbatim and on lines of their own, beyond the
+            # first 4 KiB (usage text, an embedded sample): the linter does not read that far, the new header has to be written all the same
+            far = sorted(AN.requested_notices(req)) + [f"SPDX-License-Identifier: {x}" for x in req["licences"]]
+            content = "".join(f"value_{i} = {i}  # filler line {i}\n" for i in range(140)) + "".join("    " + ln + "\n" for ln in far) + "end = 1\n"
+            ctx.label("content:requested-notices-spelled-out-beyond-4KiB")
         if c.get("latin1") and isinstance(content, str) and not c["binary"]:
             # a text file in a legacy encoding (not valid UTF-8, not sniffed as binary): annotate refuses it — or, if it ever writes, the result
             # still has to read back
